@@ -32,7 +32,7 @@ func genQid(r *Rng, idx int, mode string) *Enc {
 	e := NewEnc()
 	name := qidString(idx)
 	if mode == "random" {
-		parts := []string{"\"", "`", "é", "漢", "--", "/*", "*/", "x", " ", "\\", "';", "\"\"", "\n", "\x00", "DROP"}
+		parts := []string{"\"", "`", "é", "漢", "--", "/*", "*/", "x", " ", "\\", "';", "\"\"", "\n", "\x00", "DROP", "caf\xe9", "\xff", "\xc3", "\xe6\xbc"}
 		name = ""
 		for k := r.Range(0, 8); k > 0; k-- {
 			name += Pick(r, parts)
